@@ -23,10 +23,14 @@ N = {"quick": 600, "thorough": 9500}
 
 
 def plan(tier, seed):
-    return [{"n": N[tier]} for _ in range(16)]
+    return [{"n": N[tier]} for _ in range(16)] + [{"kind": "threads", "rounds": 3 if tier == "quick" else 40}]
 
 
 def run(shard, ctx):
+    if shard.get("kind") == "threads":
+        for _ in range(shard["rounds"]):
+            dlms_common.run_threads(ID, dlms_gen.kaifa_case, ctx)
+        return
     rng = ctx.rng(ID)
     for i in range(shard["n"]):
         case = dlms_gen.kaifa_case(rng)
